@@ -274,3 +274,10 @@ PROPS["C15"].update({
     "level_note": "Trusted: Lean kernel, standard axioms, Spec/Eci.lean (Table 6) and Spec/Charsets.lean (Unicode mapping files, typed from memory) as definitions; String.fromUTF8? as the meaning of well-formed UTF-8; the per-byte charset tables are observed through the public decode_str.",
     "technique": "Lean 4 theorems (omega, decide over regenerated tables) + exhaustive model/implementation correspondence",
 })
+
+PROPS["C05"].update({
+    "lean": ["DM.Props.C05"],
+    "unproved": ["decode_str_total (span slicing in eci::convert)", "rs_decode_total (Reed-Solomon decoder: Levinson-Durbin / Chien / Bjorck-Pereyra index and divisor obligations)"],
+    "explanation": "Theorems: decode_data_total - for every list of codewords the data-decoder model (every Rust panic site an explicit outcome) returns a value or a documented error, never a panic, and its loop bound is never reached; try_from_bits_total - the bitmap parser only reads inside the pixel array (with C08's theorems: every pixel array gets an answer). The string decoder and the Reed-Solomon decoder are decided by model/implementation correspondence (models with explicit panic outcomes vs the real code under catch_unwind, checked profile = overflow checks and debug assertions on) on exhaustive-short, grammar-aware mutated, crafted-syndrome and random inputs; any panic of the implementation is a violation on its own.",
+    "level_text": "Partial proof (data decoder and bitmap parser total for all inputs) + exploration with model correspondence for decode_str and the Reed-Solomon decoder.",
+})
